@@ -63,10 +63,21 @@ func report(prop, tier string, all []*Obligation, functions []string, trusted, i
 	byBackend := map[string]int{}
 	var solverTime, maxTime float64
 	nVac := 0
+	// reachability canaries: a function is vacuous only if NO return of it is reachable (some returns
+	// are legitimately dead under the preconditions, e.g. decode errors on a validated patch)
+	reachable := map[string]bool{}
+	for _, o := range all {
+		if o.MustBeSat && strings.HasSuffix(o.Name, ":reachable") && o.ok() {
+			reachable[o.Func] = true
+		}
+	}
 	for _, o := range all {
 		if o.MustBeSat {
 			nVac++
 			if !o.ok() {
+				if strings.HasSuffix(o.Name, ":reachable") && reachable[o.Func] {
+					continue
+				}
 				vac = append(vac, o)
 			}
 			continue
